@@ -126,3 +126,19 @@ Fixpoint for_loop {W S R} (n : nat) (i : Z) (body : Z -> S -> M W (loopres S R))
 
 Definition for_range {W S R} (lo hi : Z) (body : Z -> S -> M W (loopres S R)) (s : S) : M W (loopres S R) :=
   for_loop (Z.to_nat (hi - lo)) lo body s.
+
+(* ---------- endless loops ----------
+   for { body }   with `return` (and `continue`) as the only ways out of / around the body.
+   Gallina has no unbounded iteration: the loop is given fuel, and the function that contains it
+   takes [fuel : nat] and yields an option; [None] = the fuel ran out before the loop returned
+   (not a behaviour of the Go code - the tie theorems state how much fuel is enough). *)
+Fixpoint forever {W S R} (fuel : nat) (body : S -> M W (loopres S R)) (s : S) : M W (option R) :=
+  match fuel with
+  | O => ret None
+  | Datatypes.S n =>
+    bind (body s) (fun r =>
+      match r with
+      | LCont s' => forever n body s'
+      | LRet v => ret (Some v)
+      end)
+  end.
